@@ -625,6 +625,28 @@ pub fn run(run: &Run) {
             }
         });
         run.add_distinct(total as u64 + counts[0].0 as u64);
+        // every sequence of THREE inputs over a core alphabet (complete / partial / failing inputs, 14 of them) through
+        // the public parse_multi: x (ok), y (rejected), x again is not a pair
+        {
+            let core: Vec<usize> = alpha.iter().enumerate().filter(|(_, (n, _))| ["task", "sentence", "sentence-bare", "term", "atom", "budget-only", "truth-only", "stamp-only", "budget-term", "truth-out-of-range", "unterminated-statement", "two-terms", "empty", "garbage"].contains(n)).map(|(i, _)| i).collect();
+            let n3 = core.len();
+            run.count(&format!("triples_over_core_alphabet_{}", f.name), (n3 * n3 * n3) as u64);
+            (0..n3 * n3 * n3).into_par_iter().for_each(|code| {
+                let idx = [core[code % n3], core[(code / n3) % n3], core[code / (n3 * n3)]];
+                let inputs: Vec<&str> = idx.iter().map(|&i| alpha[i].1.as_str()).collect();
+                run.eval(1);
+                match quiet_catch(AssertUnwindSafe(|| f.e.parse_multi(inputs.iter().copied()).into_iter().map(|r| outcome(&r.map_err(|e| e.to_string()))).collect::<Vec<_>>())) {
+                    Err(p) => run.violation(&format!("[{}] parse_multi over {inputs:?} panics: {p}", f.name), json!({"op": "parse_sequence", "format": f.name, "inputs": inputs}), &[]),
+                    Ok(got) => {
+                        if got.len() != 3 {
+                            run.violation(&format!("[{}] parse_multi over {inputs:?} returns {} results", f.name, got.len()), json!({"op": "parse_sequence", "format": f.name, "inputs": inputs}), &[]);
+                        } else if let Some(pos) = (0..3).find(|&p| got[p] != fresh[idx[p]]) {
+                            run.violation(&format!("[{}] parse_multi over {inputs:?}: position {pos} gives {} but parsed alone it gives {}", f.name, show_outcome(&got[pos]), show_outcome(&fresh[idx[pos]])), json!({"op": "parse_sequence", "format": f.name, "inputs": inputs}), &[]);
+                        }
+                    }
+                }
+            });
+        }
         // soak: long histories in one dimension. For every input x of the alphabet plus deep
         // unterminated / over-closed towers and a long garbage run, every input y, and every
         // k in SOAK_COUNTS: x repeated k times then y, and (x y) repeated k times, through the
